@@ -30,7 +30,8 @@ ASSUMPTIONS = ["msdparser.parse_msd tokenizes correctly", "values inside msdpars
 MONITORS = ["enum_roundtrip", "model_equality", "roundtrip", "restringify", "loads_detects_sm", "tokenizer_structure", "serialize_file"]
 REQUIRED = ["key_only", "multi_value_with_colons", "value_has_colon", "value_has_semicolon", "value_has_backslash",
             "value_has_dslash", "value_has_lf", "value_has_crlf", "extradata", "charts_reordered", "crosses_4096",
-            "backslash_without_other_meta", "str_mid_history_then_extradata_edit", "corpus_start"]
+            "backslash_without_other_meta", "str_mid_history_then_extradata_edit", "corpus_start",
+            "meta_token_on_8192_boundary", "chart_fields_assigned_out_of_order"]
 
 
 def anchors():
@@ -97,6 +98,13 @@ def features(ctx, m, case, text):
             ctx.feat("str_mid_history_then_extradata_edit")
     if case["start"] not in ("blank", "empty"):
         ctx.feat("corpus_start")
+    for v in sv:
+        if len(v) > 8192 and any(v[i:i + 2] in ("//", "\\\\") or v[i] in ":;\\" for i in (8190, 8191, 8192)):
+            ctx.feat("meta_token_on_8192_boundary")
+    if any(op[0] == "cs_move" for op in case["ops"]) or any(
+            isinstance(x, dict) and x.get("via") == "ctor" for op in case["ops"] for x in (op[1:] if op[0].startswith("c_") else [])
+            for x in ([x] if isinstance(x, dict) else (x if isinstance(x, list) else []))):
+        ctx.feat("chart_fields_assigned_out_of_order")
     return any(any(ch in v for ch in ":;\\/\n\r") for v in sv) or bool(m.charts)
 
 
@@ -179,6 +187,8 @@ def check(ctx, case):
         return
     s, m = res
     text = str(s)
+    if E.real_state(s, KIND) != E.model_state(m, KIND):
+        ctx.violation("serialize:modified-the-simfile", {"after_str": repr(E.real_state(s, KIND))[:600], "model": repr(E.model_state(m, KIND))[:600]})
     nontrivial = features(ctx, m, case, text)
     ctx.begin(case, nontrivial=nontrivial, sample={"start": case["start"], "n_ops": len(case["ops"]), "ops": case["ops"][:6], "text": text[:300]})
 
@@ -200,7 +210,7 @@ def check(ctx, case):
     if ok:
         for rc, mc in zip(r.charts, m.charts):
             got = [rc.stepstype, rc.description, rc.difficulty, rc.meter, rc.radarvalues, rc.notes]
-            if got != mc.six() or list(rc.extradata or []) != list(mc.extra or []) or list(rc.keys()) != M.SIX:
+            if got != mc.six() or list(rc.extradata or []) != list(mc.extra or []) or sorted(rc.keys()) != sorted(M.SIX):
                 ok = False
                 diff = {"chart_got": got, "extra_got": rc.extradata, "chart_want": mc.six(), "extra_want": mc.extra}
                 break
